@@ -134,7 +134,10 @@ func WriteValue(w ion.Writer, v model.Value, p Picker) error {
 		if route != 1 && v.Int.Sign() >= 0 && v.Int.Cmp(maxU64) <= 0 {
 			return w.WriteUint(v.Int.Uint64())
 		}
-		return w.WriteBigInt(new(big.Int).Set(v.Int))
+		tmp := new(big.Int).Set(v.Int)
+		err := w.WriteBigInt(tmp)
+		tmp.SetInt64(-77) // the caller's big.Int is the caller's again
+		return err
 	case model.Float:
 		return w.WriteFloat(v.Float)
 	case model.Decimal:
@@ -148,10 +151,20 @@ func WriteValue(w ion.Writer, v model.Value, p Picker) error {
 		return w.WriteSymbol(Tok(v.Sym))
 	case model.String:
 		return w.WriteString(v.Text)
-	case model.Clob:
-		return w.WriteClob(v.Bytes)
-	case model.Blob:
-		return w.WriteBlob(v.Bytes)
+	case model.Clob, model.Blob:
+		// the caller's slice belongs to the caller again once the call returns
+		// (as with io.Writer): it is overwritten right away
+		tmp := append(make([]byte, 0, len(v.Bytes)+8), v.Bytes...)
+		var err error
+		if v.Kind == model.Clob {
+			err = w.WriteClob(tmp)
+		} else {
+			err = w.WriteBlob(tmp)
+		}
+		for i := range tmp {
+			tmp[i] = 0xEE
+		}
+		return err
 	case model.List:
 		if err := w.BeginList(); err != nil {
 			return err
